@@ -114,6 +114,12 @@ func (ctx *Context) Parse(value string) error {
 		return err
 	}
 
+	if p.cur.data.codeOverflow {
+		// 超长的指令被丢弃了一部分，不能执行被截断的程序
+		err = errors.New("E1:指令虚拟机栈溢出，请不要发送过长的指令")
+		ctx.Error = err
+		return err
+	}
 	p.cur.data.dropStaleCode()
 	ctx.code = p.cur.data.code
 	ctx.codeIndex = p.cur.data.codeIndex
